@@ -99,10 +99,10 @@ func (d *DcDecl) QName() string {
 
 type DcProgram struct {
 	MainPath string // import path of package p ("" = example.com/m/p): its directory name need not be "p"
-	Decls  []*DcDecl
-	PkgTag map[string]bool // package -> has "+k8s:deepcopy-gen=package"
-	HasDep bool
-	byName map[string]*DcDecl
+	Decls    []*DcDecl
+	PkgTag   map[string]bool // package -> has "+k8s:deepcopy-gen=package"
+	HasDep   bool
+	byName   map[string]*DcDecl
 }
 
 func (p *DcProgram) Main() string {
